@@ -18,6 +18,7 @@ from __future__ import annotations
 
 import json
 import operator
+import os
 import sys
 from dataclasses import dataclass
 
@@ -553,7 +554,7 @@ def evaluate(cases, model_ok):
             exprs += [f"model_sx {pt} {wt}", f"spec_sx {pt} {wt}", f"fragW_sx {pt} {wt}"]
         else:
             exprs += [f"spec_sx {pt} {wt}"]
-    vals = core.coq_values(PROP, HEADER if model_ok else HEADER_SPEC, exprs, chunk=240)
+    vals = core.coq_values(PROP, HEADER if model_ok else HEADER_SPEC, exprs, chunk=240, tag=f"vals{os.getpid()}")
     out = []
     for j, c in enumerate(cases):
         if model_ok:
@@ -566,16 +567,19 @@ def evaluate(cases, model_ok):
 
 CLASS_TEXT = {
     "K_surgery": "the tree built by refinement()/alternative()/next_rule() is not the written one (C08-a/b/c/f, repaired by /repo 4511011: no open finding)",
-    "K_next": "programs with next_rule: conclusion dropped for a binding an earlier branch concluded (C08-d/e); alternative after a next_rule (C08-g)",
+    "K_next": "programs with next_rule (outside the proved fragment; C08-d/e/g repaired by /repo 35fa150, 6dfdafd: no open finding): compared with model and Spec",
+    "U_unsettled": "next_rule written in the level of a later sibling refinement: reading not settled by the property text; compared with the model only",
 }
 
 
 def case_class(fr) -> str:
-    """fr = [Gb, has_next, shared, next_ok, in_F]"""
+    """fr = [Gb, has_next, shared, later_ref_next, in_F]"""
     if fr[4] == 1:
         return "F"
     if fr[0] == 0:
         return "K_surgery"
+    if fr[3] == 1:
+        return "U_unsettled"     # next_rule in the level of a later sibling refinement: the property text does not settle it
     return "K_next"
 
 
@@ -587,7 +591,7 @@ def evaluate2(cases):
     impl = run_impl_bulk(cases)
     enc = [encode2(c) for c in cases]
     vals = core.coq_values(PROP, HEADER_SPEC, [f"spec_sx {rule_term(e['prog'])} {world_term(e['world'])}" for e in enc],
-                           chunk=240, tag="vals2")
+                           chunk=240, tag=f"valstwo{os.getpid()}")
     return [(i, project2(c, s)) for c, i, s in zip(cases, impl, vals)]
 
 
@@ -711,7 +715,8 @@ def run(tier: str, seed: int, replay=None) -> int:
     dist = {"branches": {}, "nesting": {}, "world_size": {}, "class": {}, "kinds": {"R": 0, "A": 0, "N": 0}, "trivial": 0,
             "spec_rows": 0}
     inst = {"K_surgery": 0, "K_next": 0}
-    agree_outside = {"K_surgery": 0, "K_next": 0}
+    agree_outside = {"K_surgery": 0, "K_next": 0, "U_unsettled": 0}
+    unsettled = {"cases": 0, "impl_equals_model": 0, "impl_equals_spec": 0}
     by_origin = {}
     stale_notes = 0
     bad = []
@@ -747,6 +752,13 @@ def run(tier: str, seed: int, replay=None) -> int:
                     bad.append((c, org, impl, m, s, fr, "inside the proved fragment"))
                 elif not m_ok:
                     model_bad.append((c, org, impl, m, s, fr))
+            elif cls == "U_unsettled":
+                # compared with the model only; never a VIOLATION, never a finding
+                unsettled["cases"] += 1
+                unsettled["impl_equals_model"] += 1 if m_ok else 0
+                unsettled["impl_equals_spec"] += 1 if s_ok else 0
+                if not m_ok:
+                    rep.note(f"unsettled-reading class: implementation differs from the model on {sig_of(c['prog'])!r} (not an alarm)")
             else:
                 if s_ok:
                     agree_outside[cls] += 1
@@ -795,6 +807,7 @@ def run(tier: str, seed: int, replay=None) -> int:
     rep.extra["cases_by_origin"] = by_origin
     rep.extra["same_instance_object_twice"] = stale_notes        # C08-f (fixed): must stay 0
     rep.extra["known_finding_instances"] = inst
+    rep.extra["unsettled_reading_class"] = unsettled
     rep.extra["outside_F_agreeing_with_spec"] = agree_outside
     rep.samples = [{"case": c, "impl": r[0], "spec": sorted(r[2])} for c, r in list(zip(cases, results))[:: max(1, len(cases) // 6)]][:6]
     if model_ok:
